@@ -221,4 +221,6 @@ def run(tier):
         if cfgname in ('tested', 'cblas'):
             dunits = {p + u for p in 'dz' for u in R9_UNITS}
             r9_sibling.run(chk, prog, 'C01.D4', dunits, cfgname)
+        r9_sibling.run_twins(chk, prog, 'C01.twins', [('SRC/relax_snode.c', 'relax_snode', 'SRC/ilu_relax_snode.c', 'ilu_relax_snode', 'ext'),
+                                                 ('SRC/heap_relax_snode.c', 'heap_relax_snode', 'SRC/ilu_heap_relax_snode.c', 'ilu_heap_relax_snode', 'ext')], cfgname)
     return chk.finish()
